@@ -366,6 +366,39 @@ loop:
 	pp.T.Z += "!"
 	return {FMT}Sprint(p == q, p.T.Z, (*pp).X)
 }`, `Anon$N()`},
+	{"renamed-locals-in-closures-fields-labels", `type Named$N struct{ fmt, strings string }
+
+func (n Named$N) lib() string { return n.fmt + n.strings }
+
+func Renamed$N() string {
+	fmt := "f"
+	strings := "s"
+	lib := 3
+	sort := []int{2, 1}
+	get := func() string {
+		inner := fmt + strings
+		{
+			sort := inner + "!"
+			return sort + string(rune('0'+lib))
+		}
+	}
+	h := Named$N{fmt: fmt, strings: strings}
+strings:
+	for i := range sort {
+		if i > 0 {
+			continue strings
+		}
+		lib += sort[i]
+	}
+	return get() + h.lib() + string(rune('0'+lib))
+}`, `Renamed$N()`},
+	{"shadowing-parameters-and-results", `func Shadow$N(fmt string, lib int) (strings string, sort error) {
+	strings = fmt + string(rune('0'+lib))
+	func(fmt int) {
+		strings += string(rune('a' + fmt))
+	}(lib + 1)
+	return strings, sort
+}`, `func() string { s, e := Shadow$N("p", 4); return {FMT}Sprint(s, e) }()`},
 	{"generic-method-instantiation", `type Stack$N[T any] []T
 
 func (s *Stack$N[T]) Push(v T) { *s = append(*s, v) }
